@@ -12,15 +12,19 @@ from __future__ import annotations
 USED = {}
 
 
+class RouteBroken(AssertionError):
+    """a public route to a date produced another date (only raised in strict mode)"""
+
+
 def _P():
     import pyoda_time as P
     return P
 
 
-def routed_date(cal, days: int, salt: int = 0):
+def routed_date(cal, days: int, salt: int = 0, strict: bool = False):
     P = _P()
     LD = P.LocalDate
-    k = (days * 5 + salt) % 9
+    k = (days * 5 + salt) % 12
     r = None
     try:
         if k == 1:
@@ -41,8 +45,22 @@ def routed_date(cal, days: int, salt: int = 0):
         elif k == 7:
             b = LD._ctor(days_since_epoch=days, calendar=cal)
             r = b.plus_months(1).plus_months(-1)
+        elif k == 8:
+            r = LD._ctor(days_since_epoch=days - 7, calendar=cal).plus_weeks(1)
+        elif k == 9 and cal is P.CalendarSystem.iso:
+            r = LD._ctor(days_since_epoch=days)                      # the calendar-less (table-driven ISO) route
+        elif k == 10 and cal is P.CalendarSystem.iso and -719162 <= days <= 2932896:
+            import datetime
+            r = LD.from_date(datetime.date.fromordinal(days + 719163))
+        elif k == 11 and cal is P.CalendarSystem.iso:
+            r = P.Instant._ctor(days=days, nano_of_day=777).in_utc().date
         if r is not None and not (r._days_since_epoch == days and r.calendar is cal):
+            if strict and k not in (5, 7):        # plus_years / plus_months round trips may legitimately clamp
+                raise RouteBroken(f"route {k} to day {days} of {cal.id} produced {r.year}-{r.month}-{r.day} in {r.calendar.id} "
+                                  f"carrying day number {r._days_since_epoch}")
             r = None
+    except RouteBroken:
+        raise
     except Exception:  # noqa: BLE001  (range edges, invalid fields on the way)
         r = None
     if r is None:
@@ -50,3 +68,25 @@ def routed_date(cal, days: int, salt: int = 0):
         r = LD._ctor(days_since_epoch=days, calendar=cal)
     USED[k] = USED.get(k, 0) + 1
     return r
+
+
+def date_out_of_step(d):
+    """None, or a description of how the LocalDate `d` disagrees with itself: its fields must be a valid date of its
+    calendar, the constructor-made date with those fields must be == to it and have the same day number, and the
+    day-number constructor must give the same fields (a value that prints right but secretly denotes another day, or
+    carries fields that do not exist in its calendar, is caught here whatever operation produced it)"""
+    P = _P()
+    cal = d.calendar
+    y, m, dd, days = d.year, d.month, d.day, d._days_since_epoch
+    try:
+        c = P.LocalDate(y, m, dd, cal)
+    except Exception as e:  # noqa: BLE001
+        return f"fields {y}-{m}-{dd} are not a date of {cal.id} ({type(e).__name__}: {e}); day number {days}"
+    if c._days_since_epoch != days:
+        return f"fields {y}-{m}-{dd} ({cal.id}) denote day {c._days_since_epoch} but the value carries day number {days}"
+    if not (c == d) or hash(c) != hash(d):
+        return f"{y}-{m}-{dd} ({cal.id}): not == / does not hash like the constructor-made date with the same fields"
+    b = P.LocalDate._ctor(days_since_epoch=days, calendar=cal)
+    if (b.year, b.month, b.day) != (y, m, dd):
+        return f"day {days} of {cal.id} is {b.year}-{b.month}-{b.day} but the value's fields are {y}-{m}-{dd}"
+    return None
